@@ -26,8 +26,11 @@
    STATE.  What the allocator keeps in the file: end_of_file (file header) and the three singly linked lists of the
    free-chunk table (first_block, last_block, and in every free chunk the address of its end tag and next_chunk).  A
    list is kept here as the list of (start, end_of_chunk_tag) in LINK ORDER (head = first_block) plus last_block.
-   Two ghost components, which the C code does not have, are carried along for the theorems and the trace monitor:
-   [live] = the allocations handed out and not yet freed, [dead] = the ranges abandoned for good ('z'-filled). *)
+   Three ghost components, which the C code does not have, are carried along for the theorems and the trace monitor:
+   [live] = the allocations handed out and not yet freed, [dead] = the ranges abandoned for good ('z'-filled),
+   [lost] = the tails of allocations that were handed back SHORTER than they were allocated (ADF_Write_All_Data
+   rewrites the boundary tags of a node's only data chunk for the new, smaller byte count; ADFI_file_free later reads
+   the size from those tags): bytes that are neither in use, nor on a free list, nor 'z'. *)
 From Coq Require Import ZArith List Bool Lia.
 Import ListNotations.
 Local Open Scope Z_scope.
@@ -56,11 +59,11 @@ Definition fl_empty : flist := mkFl [] None.
 Record st := mkSt {
   eof : Z;
   small : flist; medium : flist; large : flist;
-  live : list region; dead : list region        (* ghost *)
+  live : list region; dead : list region; lost : list region        (* ghost *)
 }.
 
 (* ADFI_fill_initial_file_header: end_of_file = ROOT_NODE_OFFSET + NODE_HEADER_SIZE - 1 in block 0 *)
-Definition init_st : st := mkSt (HDR - 1) fl_empty fl_empty fl_empty [] [].
+Definition init_st : st := mkSt (HDR - 1) fl_empty fl_empty fl_empty [] [] [].
 
 Definition in_c_range (s : st) (n : Z) : bool := (0 <? n) && (n <? 2 ^ 62) && (0 <=? eof s) && (eof s <? 2 ^ 62).
 
@@ -82,33 +85,40 @@ Definition classify (p n : Z) : class :=
          if off e + TAG_SIZE - off p <=? SMALL_CHUNK_MAXIMUM then CSmall else CMedium
        else CLarge.
 
-Definition region_eqb (a b : region) : bool := (fst a =? fst b) && (snd a =? snd b).
-Fixpoint remove_one (r : region) (l : list region) : list region :=
+(* the live allocation that starts at p, and the others *)
+Fixpoint take_live (p : Z) (l : list region) : option (region * list region) :=
   match l with
-  | [] => []
-  | x :: t => if region_eqb r x then t else x :: remove_one r t
+  | [] => None
+  | x :: t => if fst x =? p then Some (x, t)
+              else match take_live p t with Some (r, t') => Some (r, x :: t') | None => None end
   end.
 
 (* what the C routine does to the file (lists / dead space); [live] is untouched *)
 Definition free_raw (s : st) (p n : Z) : st :=
   let e := p + n - TAG_SIZE in
   match classify p n with
-  | CDead   => mkSt (eof s) (small s) (medium s) (large s) (live s) ((p, n) :: dead s)
-  | CSmall  => mkSt (eof s) (push (small s) p e) (medium s) (large s) (live s) (dead s)
-  | CMedium => mkSt (eof s) (small s) (push (medium s) p e) (large s) (live s) (dead s)
-  | CLarge  => mkSt (eof s) (small s) (medium s) (push (large s) p e) (live s) (dead s)
+  | CDead   => mkSt (eof s) (small s) (medium s) (large s) (live s) ((p, n) :: dead s) (lost s)
+  | CSmall  => mkSt (eof s) (push (small s) p e) (medium s) (large s) (live s) (dead s) (lost s)
+  | CMedium => mkSt (eof s) (small s) (push (medium s) p e) (large s) (live s) (dead s) (lost s)
+  | CLarge  => mkSt (eof s) (small s) (medium s) (push (large s) p e) (live s) (dead s) (lost s)
   end.
 
+(* ghost: the allocation that starts at p leaves [live]; what it had beyond the n bytes handed back is [lost] *)
 Definition forget (s : st) (p n : Z) : st :=
-  mkSt (eof s) (small s) (medium s) (large s) (remove_one (p, n) (live s)) (dead s).
+  match take_live p (live s) with
+  | Some (r, l') =>
+      mkSt (eof s) (small s) (medium s) (large s) l' (dead s)
+           (if n <? snd r then (p + n, snd r - n) :: lost s else lost s)
+  | None => s
+  end.
 
 (* a caller's free: the C routine + the ghost bookkeeping *)
 Definition free (s : st) (p n : Z) : st := free_raw (forget s p n) p n.
 
 (* ------------------------------------------------------------------ ADFI_file_malloc as compiled *)
-Definition set_eof (s : st) (e : Z) : st := mkSt e (small s) (medium s) (large s) (live s) (dead s).
+Definition set_eof (s : st) (e : Z) : st := mkSt e (small s) (medium s) (large s) (live s) (dead s) (lost s).
 Definition add_live (s : st) (p n : Z) : st :=
-  mkSt (eof s) (small s) (medium s) (large s) ((p, n) :: live s) (dead s).
+  mkSt (eof s) (small s) (medium s) (large s) ((p, n) :: live s) (dead s) (lost s).
 
 (* the three arms of "Append memory at end of file"; the second component says which arm was taken and what was
    freed on the way (0 = the end of file was the last byte of a block, 1 = rest of the block freed, 2 = remaining block
@@ -142,17 +152,25 @@ Definition step (s : st) (o : op) : st :=
   | OFree p n => free s p n
   end.
 
-(* what callers must respect: a positive size; a free hands back a live allocation, whole, with its size *)
+(* what callers must respect: a positive size; a free hands back a live allocation from its first byte, at most as
+   many bytes as were allocated ([exact_step]: exactly as many) *)
 Definition ok_step (s : st) (o : op) : bool :=
   match o with
   | OMalloc n => 0 <? n
-  | OFree p n => existsb (region_eqb (p, n)) (live s)
+  | OFree p n => match take_live p (live s) with Some (r, _) => (0 <? n) && (n <=? snd r) | None => false end
+  end.
+Definition exact_step (s : st) (o : op) : bool :=
+  match o with
+  | OMalloc n => 0 <? n
+  | OFree p n => match take_live p (live s) with Some (r, _) => (0 <? n) && (n =? snd r) | None => false end
   end.
 
 Fixpoint run (s : st) (h : list op) : st :=
   match h with [] => s | o :: t => run (step s o) t end.
 Fixpoint ok_hist (s : st) (h : list op) : bool :=
   match h with [] => true | o :: t => ok_step s o && ok_hist (step s o) t end.
+Fixpoint exact_hist (s : st) (h : list op) : bool :=
+  match h with [] => true | o :: t => exact_step s o && exact_hist (step s o) t end.
 (* the positions the mallocs of a history return *)
 Fixpoint positions (s : st) (h : list op) : list Z :=
   match h with
@@ -165,8 +183,9 @@ Fixpoint positions (s : st) (h : list op) : list Z :=
 Definition chunk_region (c : chunk) : region := (fst c, snd c + TAG_SIZE - fst c).
 Definition fl_regions (f : flist) : list region := map chunk_region (fl_chunks f).
 Definition free_regions (s : st) : list region := fl_regions (small s) ++ fl_regions (medium s) ++ fl_regions (large s).
-Definition regions (s : st) : list region := live s ++ free_regions s ++ dead s.
+Definition regions (s : st) : list region := live s ++ free_regions s ++ dead s ++ lost s.
 Definition total (l : list region) : Z := fold_right (fun r a => snd r + a) 0 l.
+Definition n_entries (f : flist) : nat := length (fl_chunks f).
 Definition last_start (l : list chunk) : option Z :=
   match rev l with [] => None | c :: _ => Some (fst c) end.
 
@@ -199,7 +218,7 @@ Definition fl_take (n : Z) (f : flist) : option (chunk * flist) :=
                         end))
   end.
 
-Definition set_lists (s : st) (sm me la : flist) : st := mkSt (eof s) sm me la (live s) (dead s).
+Definition set_lists (s : st) (sm me la : flist) : st := mkSt (eof s) sm me la (live s) (dead s) (lost s).
 
 (* the remainder goes back through ADFI_file_free *)
 Definition carve (s : st) (c : chunk) (n : Z) : st * Z :=
